@@ -57,36 +57,41 @@ pub fn encode_run(pool: &Pool, spec: &RunSpec) -> Vec<u8> {
     let mut expr_ids: BTreeMap<u32, u32> = BTreeMap::new();
     let mut text_ids: BTreeMap<u32, u32> = BTreeMap::new();
     let mut entries: Vec<Value> = Vec::new();
-    let mut clients: Vec<Vec<u32>> = Vec::with_capacity(spec.clients.len());
-    for c in &spec.clients {
-        let mut cl = Vec::with_capacity(c.len());
-        for e in c {
-            let li = match local.get(e) {
-                Some(i) => *i,
-                None => {
-                    let i = entries.len() as u32;
-                    let en = &pool.entries[*e as usize];
-                    let nx = expr_ids.len() as u32;
-                    let x = *expr_ids.entry(en.expr_id).or_insert(nx);
-                    let nt = text_ids.len() as u32;
-                    let t = *text_ids.entry(en.text_id).or_insert(nt);
-                    entries.push(json!([en.call.ev.name(), en.call.expr, en.call.ph.encode(), en.oracle.encode(), en.ticks, en.trace.to_string(), x, t, en.sensitive]));
-                    local.insert(*e, i);
-                    i
-                }
-            };
-            cl.push(li);
+    // every phase of a chained run (process incarnations sharing one disk) uses the same mini-pool
+    let mut specs_json: Vec<Value> = Vec::new();
+    let mut cur: Option<&RunSpec> = Some(spec);
+    while let Some(sp) = cur {
+        let mut clients: Vec<Vec<u32>> = Vec::with_capacity(sp.clients.len());
+        for c in &sp.clients {
+            let mut cl = Vec::with_capacity(c.len());
+            for e in c {
+                let li = match local.get(e) {
+                    Some(i) => *i,
+                    None => {
+                        let i = entries.len() as u32;
+                        let en = &pool.entries[*e as usize];
+                        let nx = expr_ids.len() as u32;
+                        let x = *expr_ids.entry(en.expr_id).or_insert(nx);
+                        let nt = text_ids.len() as u32;
+                        let t = *text_ids.entry(en.text_id).or_insert(nt);
+                        entries.push(json!([en.call.ev.name(), en.call.expr, en.call.ph.encode(), en.oracle.encode(), en.ticks, en.trace.to_string(), x, t, en.sensitive]));
+                        local.insert(*e, i);
+                        i
+                    }
+                };
+                cl.push(li);
+            }
+            clients.push(cl);
         }
-        clients.push(cl);
+        let sw: Vec<[u32; 4]> = sp.switches.iter().map(|s| [s.thread, s.call, s.tick, s.to]).collect();
+        specs_json.push(json!({
+            "seed": sp.seed.to_string(), "clients": clients, "churn": sp.churn, "policy": policy_json(&sp.policy), "start": sp.start,
+            "switches": sw, "est": sp.est_steps, "trace": sp.want_trace, "jumps": sp.clock_jumps, "depths": sp.stack_depths, "cpus": sp.cpu_limits,
+            "kill": sp.kill_step.to_string(),
+        }));
+        cur = sp.next.as_deref();
     }
-    let sw: Vec<[u32; 4]> = spec.switches.iter().map(|s| [s.thread, s.call, s.tick, s.to]).collect();
-    let v = json!({
-        "entries": entries,
-        "spec": {
-            "seed": spec.seed.to_string(), "clients": clients, "churn": spec.churn, "policy": policy_json(&spec.policy), "start": spec.start,
-            "switches": sw, "est": spec.est_steps, "trace": spec.want_trace, "jumps": spec.clock_jumps, "depths": spec.stack_depths, "cpus": spec.cpu_limits,
-        }
-    });
+    let v = json!({ "entries": entries, "specs": specs_json });
     let mut out = vec![b'R'];
     out.extend_from_slice(v.to_string().as_bytes());
     out
@@ -124,49 +129,121 @@ pub fn decode_run(p: &[u8]) -> Option<(Pool, RunSpec)> {
         pool.by_expr[e.expr_id as usize].push(i as u32);
     }
     pool.n_texts = max_t as usize + 1;
-    let s = v.get("spec")?;
     let u32s = |x: &Value| -> Option<Vec<u32>> { x.as_array()?.iter().map(|y| y.as_u64().map(|z| z as u32)).collect() };
-    let clients: Vec<Vec<u32>> = s.get("clients")?.as_array()?.iter().map(u32s).collect::<Option<_>>()?;
-    let churn: Vec<Vec<u32>> = s.get("churn")?.as_array()?.iter().map(u32s).collect::<Option<_>>()?;
-    let switches: Vec<Sw> = s
-        .get("switches")?
-        .as_array()?
-        .iter()
-        .map(|q| {
-            let a = u32s(q)?;
-            if a.len() != 4 {
-                return None;
+    let mut chain: Vec<RunSpec> = Vec::new();
+    for s in v.get("specs")?.as_array()? {
+        let clients: Vec<Vec<u32>> = s.get("clients")?.as_array()?.iter().map(u32s).collect::<Option<_>>()?;
+        let churn: Vec<Vec<u32>> = s.get("churn")?.as_array()?.iter().map(u32s).collect::<Option<_>>()?;
+        let switches: Vec<Sw> = s
+            .get("switches")?
+            .as_array()?
+            .iter()
+            .map(|q| {
+                let a = u32s(q)?;
+                if a.len() != 4 {
+                    return None;
+                }
+                Some(Sw { thread: a[0], call: a[1], tick: a[2], to: a[3] })
+            })
+            .collect::<Option<_>>()?;
+        let jumps: Vec<Vec<(u32, i64, i64)>> = s
+            .get("jumps")?
+            .as_array()?
+            .iter()
+            .map(|t| t.as_array().map(|a| a.iter().filter_map(|j| { let q = j.as_array()?; Some((q.first()?.as_u64()? as u32, q.get(1)?.as_i64()?, q.get(2)?.as_i64()?)) }).collect()))
+            .collect::<Option<_>>()?;
+        let depths: Vec<Vec<(u32, u32)>> = s
+            .get("depths")?
+            .as_array()?
+            .iter()
+            .map(|t| t.as_array().map(|a| a.iter().filter_map(|j| { let q = j.as_array()?; Some((q.first()?.as_u64()? as u32, q.get(1)?.as_u64()? as u32)) }).collect()))
+            .collect::<Option<_>>()?;
+        chain.push(RunSpec {
+            seed: s.get("seed")?.as_str()?.parse().ok()?,
+            clients,
+            churn,
+            policy: policy_from(s.get("policy")?)?,
+            start: s.get("start")?.as_u64()? as u32,
+            switches,
+            est_steps: s.get("est")?.as_u64()?,
+            want_trace: s.get("trace")?.as_bool()?,
+            faults_enabled: Vec::new(),
+            clock_jumps: jumps,
+            stack_depths: depths,
+            cpu_limits: u32s(s.get("cpus")?)?,
+            kill_step: s.get("kill").and_then(|x| x.as_str()).and_then(|x| x.parse().ok()).unwrap_or(0),
+            next: None,
+        });
+    }
+    let mut spec: Option<RunSpec> = None;
+    while let Some(mut sp) = chain.pop() {
+        sp.next = spec.take().map(Box::new);
+        spec = Some(sp);
+    }
+    Some((pool, spec?))
+}
+
+/// A run of several process incarnations ("phases") that share the item's private disk: each phase is a freshly
+/// forked process (no memory survives, files do); the first phase whose record is not `ok` ends the run.
+fn supervise(pool: &Pool, spec: &RunSpec) -> ! {
+    let num = |v: &Value, k: &str| v.get(k).and_then(|x| x.as_u64()).unwrap_or(0);
+    let mut before: Vec<Value> = Vec::new();
+    let mut merged: Option<Value> = None;
+    let mut hashes = crate::types::Hasher64::new();
+    let mut cur: Option<&RunSpec> = Some(spec);
+    let mut phase = 0u64;
+    let mut kills = 0u64;
+    while let Some(sp) = cur {
+        let (bytes, exit) = crate::proc::run_item(|| crate::sim::run_child(pool, sp), std::time::Duration::from_secs(120));
+        let mut rec: Value = match serde_json::from_slice(&bytes) {
+            Ok(v) => v,
+            Err(_) => {
+                let msg = json!({"st": "crashed", "why": format!("phase {} ended without a record ({:?})", phase, exit)});
+                crate::proc::item_finish(msg.to_string().as_bytes())
             }
-            Some(Sw { thread: a[0], call: a[1], tick: a[2], to: a[3] })
-        })
-        .collect::<Option<_>>()?;
-    let jumps: Vec<Vec<(u32, i64, i64)>> = s
-        .get("jumps")?
-        .as_array()?
-        .iter()
-        .map(|t| t.as_array().map(|a| a.iter().filter_map(|j| { let q = j.as_array()?; Some((q.first()?.as_u64()? as u32, q.get(1)?.as_i64()?, q.get(2)?.as_i64()?)) }).collect()))
-        .collect::<Option<_>>()?;
-    let depths: Vec<Vec<(u32, u32)>> = s
-        .get("depths")?
-        .as_array()?
-        .iter()
-        .map(|t| t.as_array().map(|a| a.iter().filter_map(|j| { let q = j.as_array()?; Some((q.first()?.as_u64()? as u32, q.get(1)?.as_u64()? as u32)) }).collect()))
-        .collect::<Option<_>>()?;
-    let spec = RunSpec {
-        seed: s.get("seed")?.as_str()?.parse().ok()?,
-        clients,
-        churn,
-        policy: policy_from(s.get("policy")?)?,
-        start: s.get("start")?.as_u64()? as u32,
-        switches,
-        est_steps: s.get("est")?.as_u64()?,
-        want_trace: s.get("trace")?.as_bool()?,
-        faults_enabled: Vec::new(),
-        clock_jumps: jumps,
-        stack_depths: depths,
-        cpu_limits: u32s(s.get("cpus")?)?,
-    };
-    Some((pool, spec))
+        };
+        rec["phase"] = json!(phase);
+        if rec.get("st").and_then(|x| x.as_str()) != Some("ok") {
+            rec["phases_before"] = Value::Array(before);
+            crate::proc::item_finish(rec.to_string().as_bytes());
+        }
+        if rec.get("killed").and_then(|x| x.as_bool()) == Some(true) {
+            kills += 1;
+        }
+        hashes.u64(u64::from_str_radix(rec.get("h").and_then(|x| x.as_str()).unwrap_or("0"), 16).unwrap_or(0));
+        before.push(json!({"start": rec.get("start").cloned().unwrap_or(json!(0)), "switches": rec.get("switches").cloned().unwrap_or(json!([]))}));
+        merged = Some(match merged.take() {
+            None => rec,
+            Some(mut m) => {
+                for k in ["calls", "ticks", "bt", "shh", "fw", "rsc", "steps", "sw", "cr", "wd", "sens", "hl", "tmo", "slp", "yld", "jn", "fo", "fp", "fh", "us_spawn", "us_total"] {
+                    m[k] = json!(num(&m, k) + num(&rec, k));
+                }
+                m["mi"] = json!(num(&m, "mi").max(num(&rec, "mi")));
+                for k in ["f", "ps"] {
+                    if let (Some(a), Some(b)) = (m.get(k).and_then(|x| x.as_array()).cloned(), rec.get(k).and_then(|x| x.as_array())) {
+                        m[k] = Value::Array(a.iter().zip(b.iter()).map(|(x, y)| json!(x.as_u64().unwrap_or(0) + y.as_u64().unwrap_or(0))).collect());
+                    }
+                }
+                if let (Some(mut a), Some(b)) = (m.get("pairs").and_then(|x| x.as_array()).cloned(), rec.get("pairs").and_then(|x| x.as_array())) {
+                    a.extend(b.iter().cloned());
+                    m["pairs"] = Value::Array(a);
+                }
+                m
+            }
+        });
+        cur = sp.next.as_deref();
+        phase += 1;
+    }
+    let mut m = merged.unwrap_or(json!({"st": "crashed", "why": "no phase"}));
+    m["h"] = json!(format!("{:016x}", hashes.finish()));
+    m["phases"] = json!(phase);
+    m["kills"] = json!(kills);
+    m["phase_traces"] = Value::Array(before);
+    m.as_object_mut().map(|o| {
+        o.remove("switches");
+        o.remove("start");
+    });
+    crate::proc::item_finish(m.to_string().as_bytes())
 }
 
 /// What an item child runs.
@@ -180,7 +257,13 @@ pub fn item_entry(p: &[u8]) -> ! {
             None => crate::proc::item_finish(b"bad-iso-payload"),
         },
         Some(b'R') => match decode_run(p) {
-            Some((pool, spec)) => crate::sim::run_child(&pool, &spec),
+            Some((pool, spec)) => {
+                if spec.next.is_some() {
+                    supervise(&pool, &spec)
+                } else {
+                    crate::sim::run_child(&pool, &spec)
+                }
+            }
             None => crate::proc::item_finish(b"{\"st\":\"crashed\",\"why\":\"bad run payload\"}"),
         },
         _ => crate::proc::item_finish(b"bad-payload"),
